@@ -297,6 +297,101 @@ var corpus = []prog{
 		}
 		note(a, b)
 	}, "no-deadlock"},
+	{"try-send-vs-receiver", func() {
+		// a full buffer, a receiver that makes room, a non-blocking sender: whether the try-send
+		// succeeds depends on whether the receive came first
+		c := vs.NewChan[int](1)
+		c.Send(0)
+		done := vs.NewChan[int](2)
+		vs.Go(func() {
+			v := c.Recv()
+			note("recv", v)
+			done.Send(1)
+		})
+		vs.Go(func() {
+			if vs.SelectDefault(vs.SendCase(c, 7)) == 0 {
+				note("sent")
+			} else {
+				note("full")
+			}
+			done.Send(1)
+		})
+		done.Recv()
+		done.Recv()
+	}, "no-deadlock"},
+	{"try-send-twice-late-receiver", func() {
+		// two non-blocking sends into a buffer of one while the receiver may or may not have taken
+		// the first value yet (and may or may not be pending at its receive already)
+		c := vs.NewChan[int](1)
+		fin := vs.NewChan[int](0)
+		vs.Go(func() {
+			for {
+				v, ok := c.Recv2()
+				if !ok {
+					break
+				}
+				note("got", v)
+			}
+			fin.Send(1)
+		})
+		for i := 0; i < 2; i++ {
+			if vs.SelectDefault(vs.SendCase(c, i)) != 0 {
+				note("dropped", i)
+			}
+		}
+		c.Close()
+		fin.Recv()
+	}, "no-deadlock"},
+	{"try-send-twice-receiver-first", func() {
+		// as above, but the receiver is the older goroutine: in the default schedule it is already
+		// pending at its receive when the first value is sent
+		c := vs.NewChan[int](1)
+		fin := vs.NewChan[int](0)
+		vs.Go(func() {
+			for {
+				v, ok := c.Recv2()
+				if !ok {
+					break
+				}
+				note("got", v)
+			}
+			fin.Send(1)
+		})
+		vs.Go(func() {
+			for i := 0; i < 2; i++ {
+				if vs.SelectDefault(vs.SendCase(c, i)) != 0 {
+					note("dropped", i)
+				}
+			}
+			c.Close()
+		})
+		fin.Recv()
+	}, "no-deadlock"},
+	{"try-send-else-spawn-sender", func() {
+		// the shape of "deliver now if there is room, else hand over to a goroutine" followed by close
+		c := vs.NewChan[int](1)
+		fin := vs.NewChan[int](0)
+		vs.Go(func() {
+			n := 0
+			for {
+				_, ok := c.Recv2()
+				if !ok {
+					break
+				}
+				n++
+			}
+			note("received", n)
+			fin.Send(1)
+		})
+		for i := 0; i < 2; i++ {
+			i := i
+			if vs.SelectDefault(vs.SendCase(c, i)) != 0 {
+				vs.Go(func() { c.Send(i) })
+			}
+		}
+		c.Close()
+		fin.Recv()
+	}, ""},
 	{"lost-wakeup-deadlock", func() {
 		// receiver waits for a message that is only sent if a flag was seen: deadlock in some schedules
 		c := vs.NewChan[int](0)
@@ -350,6 +445,10 @@ func main() {
 			continue
 		}
 		t0 := time.Now()
+		// the buffer model is a function of the program: every program starts in the default
+		// (hand-off) model unless the whole run is forced into the pure one (VS_PURE_BUF=1)
+		vs.PureBuf = os.Getenv("VS_PURE_BUF") != ""
+		vs.NeedPure = false
 		truth := map[string]int{}
 		st1 := vs.ExploreNaive(nil, p.body, func(s *vs.Sched) bool { truth[key(s)]++; return true }, true, -1, time.Now().Add(60*time.Second))
 		// the pruning of the reference explorer is itself checked against plain enumeration
